@@ -1,4 +1,4 @@
-ENTRY = {'modules': ['VirtioVerif.Props.C19Drivers', 'VirtioVerif.Props.C19'],
+ENTRY = {'modules': ['VirtioVerif.Props.C19Drivers', 'VirtioVerif.Props.C19', 'VirtioVerif.Props.C19Init'],
  'assumptions': ['abstract queue (Model/EvQueue.lean, assumptions A1-A4): one-descriptor chains; add fails '
                  'with QueueFull iff posted+used+1 > SIZE; peek/pop follow used-ring order; pop_used returns '
                  "the device's length and copies the device-visible bytes back; the device completes only "
@@ -29,5 +29,7 @@ ENTRY = {'modules': ['VirtioVerif.Props.C19Drivers', 'VirtioVerif.Props.C19'],
                 'events against the real OwningQueue (six SIZE/BUFFER_SIZE pairs, three handler kinds), '
                 'VirtIOInput and VirtIOSound with random completion order, bursts, every length '
                 '0..=BUFFER_SIZE plus under-written and oversized lengths, compared step by step with the '
-                'model and checked by device-side posted/returned accounting.',
+                'model and checked by device-side posted/returned accounting. stocking_fresh_queue: stocking '
+                'a fresh queue of any size and mode with one-buffer chains yields tokens 0,1,2,... (the '
+                "constructors' assert_eq!(token, i) cannot fire).",
  'timeout': {'quick': 900, 'thorough': 3600}}
